@@ -131,6 +131,14 @@ fn generate(seed: u64, tier: Tier, em: &mut Emitter) {
     }
     let mut rng = seed_mix(seed, 0xC05_0002);
     let count = if tier == Tier::Quick { 500 } else { 7000 };
+    // big inputs: combines over 65 535 .. 70 001 rows, one partition over 4096 rows through the
+    // lifted global local, groups of 127 .. 1000 values through the lifted locals
+    let big: Vec<BigCase> = big_combine_cases(tier != Tier::Quick)
+        .into_iter()
+        .chain(big_group_cases(tier != Tier::Quick))
+        .map(|(src, steps, mode)| ("prog", src, steps, mode))
+        .collect();
+    let mut spread = Spread::new(big, count);
     let mut made = 0;
     while made < count {
         let n = gen_len(&mut rng);
@@ -164,7 +172,9 @@ fn generate(seed: u64, tier: Tier, em: &mut Emitter) {
         let mode = if rng.chance(1, 5) { Mode::Seq } else { Mode::Par(parts) };
         emit_prog(em, &src, &steps, mode, true, &["random"]);
         made += 1;
+        spread.step(em);
     }
+    spread.finish(em);
 }
 
 fn run(kind: &str, input: &Value) -> Value {
